@@ -447,6 +447,13 @@ func (e *Exec) evalIndex(x *ast.IndexExpr, st *State, ctx *Ctx, commaOk bool) (s
 		fo := "mapfound_" + sanitize(types.TypeString(t, shortQual))
 		e.global(fn, fmt.Sprintf("(declare-fun %s (%s %s) %s)", fn, sortOf(t), sortOf(m.Key()), sortOf(m.Elem())))
 		e.global(fo, fmt.Sprintf("(declare-fun %s (%s %s) Bool)", fo, sortOf(t), sortOf(m.Key())))
+		if id, ok := x.X.(*ast.Ident); ok && id.Name == "formatByExtension" {
+			if v, ok := e.info(ctx).ObjectOf(id).(*types.Var); ok && v.Pkg() != nil && v.Parent() == v.Pkg().Scope() {
+				// the format table: fmtByName(k) is the codec registered under k, 0 if there is none (the definition of fmtByName)
+				e.note("formatByExtension[k] is found iff fmtByName(k) != 0 (definition of the spec function fmtByName; the table's content is pinned by the C05 format-table obligations)")
+				return "(" + fn + " " + mv + " " + k + ")", "(not (= (fmtByName " + k + ") 0))"
+			}
+		}
 		return "(" + fn + " " + mv + " " + k + ")", "(" + fo + " " + mv + " " + k + ")"
 	}
 	if sortOf(t) == "String" {
